@@ -685,6 +685,7 @@ fn sweep_plan(phase: u32, src: Vec<u8>, note: &str) -> ReaderPlan {
 impl Property for C14 {
     type Plan = ReaderPlan;
     const ID: &'static str = "C14";
+    const JUDGES_CRASHES: bool = true;
     const LEVEL: &'static str = "exploration";
     const RULE: &'static str = "seeded operation histories (up to 64 operations: peek/read/signed/skip at widths 0..=66 into 7 integer types, read_u8, read_vlc over generated prefix-free tables, recognize_start_code, commit, nested with_transaction / with_transaction_union / with_lookahead ending Ok/Err/None with and without `?` propagation) over sources of 0..48 bytes (planted start codes at all bit phases, zero and 0xFF runs) delivered in pieces during the run, with EINTR and hard I/O errors armed on source reads; plus (a) a systematic sweep of every start phase x every operation x every width 0..=66 x seven types and (b) a small-scope ENUMERATION of every sequence of 2 (quick) / 3 (thorough) operations from a 14-operation alphabet at all 8 start phases over 3 short sources, each on a fresh reader. evaluations = reader operations executed and compared with the bit-vector model. A history is non-trivial if it contains at least one rollback (failed transaction, None union, look-ahead) followed by a successful read of >= 1 bit; distinct by operation sequence.";
     fn runs(tier: Tier) -> u64 {
